@@ -114,6 +114,8 @@ def main(argv=None):
     timeout = float(getattr(mod, "SHARD_TIMEOUT", {}).get(tier, 900 if tier == "quick" else 7200)) \
         if isinstance(getattr(mod, "SHARD_TIMEOUT", None), dict) else (900 if tier == "quick" else 7200)
 
+    if not a.replay:
+        shutil.rmtree(os.path.join(VERIF_DIR, "replay", prop), ignore_errors=True)
     root = scratch_root()
     all_results = []
     shard_problems = []
